@@ -44,6 +44,13 @@ func c05Universe(kind string) []nBundle {
 		b2.ts = nAbsNow - 2*nLifetime
 		b2.prev = nP(nEid{2, 0})
 		return []nBundle{b1, b2}
+	case "zero-short":
+		// b1: clock-less source, a lifetime of 12 s (by age), received age 0; b2 as in "zero-time"
+		b1 := nBundle{tag: 1, src: c05Self, ts: 0, dst: far, lifetime: 12000, age: nI64(0)}
+		b2 := nFresh(2, nEid{7, 0}, nEid{3, 0})
+		b2.ts = nAbsNow - 2*nLifetime
+		b2.prev = nP(nEid{2, 0})
+		return []nBundle{b1, b2}
 	case "from-dest":
 		// b2 came from its own destination node (peer 2 relayed a bundle for a service on its node that it could
 		// not deliver itself): the epidemic gate (known finding) holds it back while only that peer is connected
@@ -440,6 +447,10 @@ func c05Sentinels(algos []struct {
 		// one forwarding attempt with a mixed outcome (peer 1 takes the bundle, peer 2 fails): the failed peer
 		// must be offered the bundle again
 		{"plain", "U1 U2 S1 T T D2 U2 T", "mixed"},
+		// a clock-less bundle (lifetime 12 s by age) whose transmissions keep failing is retried nine times, 300 ms
+		// of real time apart: after 3 s it is still alive and must still be stored (an age that is accumulated
+		// wrongly from retry to retry would have expired it). Epidemic routing only (real time).
+		{"zero-short", "U1 S1 T T T T T T T T T", "slow"},
 	}
 	var out []*nHist
 	for _, a := range algos {
@@ -447,7 +458,13 @@ func c05Sentinels(algos []struct {
 			continue
 		}
 		for i, s := range list {
+			if s.pat == "slow" && (a.name != "epidemic" || a.mule) {
+				continue
+			}
 			h := c05Base(a.name, a.mule, s.universe)
+			if s.pat == "slow" {
+				h.tickPause = 300 * time.Millisecond
+			}
 			// first attempts fail, later ones succeed (and the other way round for the second half)
 			h.oracle = map[[2]int]string{}
 			for _, p := range h.peers {
@@ -460,6 +477,8 @@ func c05Sentinels(algos []struct {
 					case "":
 					case "mixed":
 						pat = []string{"", "1", "0011"}[p.addr]
+					case "slow":
+						pat = "0"
 					default:
 						pat = s.pat
 					}
